@@ -5,6 +5,6 @@ import "time"
 func init() {
 	registry = append(registry, property{id: "C01", parts: []part{
 		{name: "differential", pkg: "./c01", run: "^TestDifferential$",
-			shards: [2]int{16, 16}, checks: [2]int{50, 2500}, timeout: [2]time.Duration{18 * min, 50 * min}},
+			shards: [2]int{16, 16}, checks: [2]int{50, 2500}, timeout: [2]time.Duration{18 * min, 100 * min}},
 	}})
 }
